@@ -230,6 +230,77 @@ Arguments unit_call {D} s r.
 Arguments step {D} deqb H gtb LH s c.
 Arguments run {D} deqb H gtb LH s cs.
 
+(* ======================= Part 1b: the Hasher level =======================
+   crypto/sha256.rs, crypto/keccak.rs (identical up to the host primitive called by finalize),
+   crypto/hashable.rs and the way merkle.rs / merkle_distributor/storage.rs use them, transcribed
+   with the hasher state explicit.  Proofs/MerkleHasher.v shows that this level never traps on
+   the paths used (HasherEmptyState is unreachable) and computes exactly the functions of Part 1
+   with  H a b := hashfn (bytes a ++ bytes b). *)
+Section Hasher.
+  Variable B : Type.               (* Bytes *)
+  Variable D : Type.               (* BytesN<32> *)
+  Variable bapp : B -> B -> B.     (* Bytes::append *)
+  Variable hashfn : B -> D.        (* env.crypto().sha256(&data).to_bytes() / keccak256 *)
+  Variable bytes_of : D -> B.      (* BytesN<32> -> Bytes (self.into()) *)
+  Variable deqb : D -> D -> bool.
+  Variable gtb : D -> D -> bool.
+
+  (* struct Sha256 / Keccak256 { state: Option<Bytes>, env } *)
+  Definition hstate := option B.
+  Definition h_new : hstate := None.
+  (* fn update: None => state = Some(input); Some(state) => state.append(&input) *)
+  Definition h_update (st : hstate) (input : B) : hstate :=
+    match st with None => Some input | Some s => Some (bapp s input) end.
+  (* fn finalize: state.unwrap_or_else(panic HasherEmptyState); crypto().<hash>(&data).to_bytes() *)
+  Definition h_finalize (st : hstate) : res D :=
+    match st with None => Fail | Some data => Ok (hashfn data) end.
+
+  (* hashable.rs: hash_pair: a.hash(&mut hasher); b.hash(&mut hasher); hasher.finalize() *)
+  Definition hash_pair_h (a b : D) : res D :=
+    h_finalize (h_update (h_update h_new (bytes_of a)) (bytes_of b)).
+  (* hashable.rs: commutative_hash_pair *)
+  Definition commutative_hash_pair_h (a b : D) : res D :=
+    if gtb a b then hash_pair_h b a else hash_pair_h a b.
+  (* storage.rs get_verification_args: hasher.update(leaf.to_xdr(e)); hasher.finalize() *)
+  Definition leaf_hash_h (encoded : B) : res D := h_finalize (h_update h_new encoded).
+
+  (* merkle.rs verify / verify_with_index with the hasher calls explicit *)
+  Fixpoint climb_h (leaf : D) (proof : list D) : res D :=
+    match proof with
+    | [] => Ok leaf
+    | h :: p => do l <- commutative_hash_pair_h leaf h; climb_h l p
+    end.
+  Definition verify_h (proof : list D) (root leaf : D) : res bool :=
+    do l <- climb_h leaf proof; Ok (deqb l root).
+
+  Fixpoint iclimb_h (leaf : D) (index : Z) (proof : list D) : res (D * Z) :=
+    match proof with
+    | [] => Ok (leaf, index)
+    | h :: p =>
+        do l <- (if Z.even index then hash_pair_h leaf h else hash_pair_h h leaf);
+        iclimb_h l (index / 2) p
+    end.
+  Definition verify_with_index_h (proof : list D) (root leaf : D) (index : Z) : res bool :=
+    let len := Z.of_nat (length proof) in
+    if 32 <=? len then Fail
+    else if 2 ^ len <=? index then Fail
+    else do r <- iclimb_h leaf index proof; Ok (deqb (fst r) root).
+
+  (* the pair hash of Part 1 *)
+  Definition H_of (a b : D) : D := hashfn (bapp (bytes_of a) (bytes_of b)).
+End Hasher.
+
+Arguments h_update {B} bapp st input.
+Arguments h_finalize {B D} hashfn st.
+Arguments hash_pair_h {B D} bapp hashfn bytes_of a b.
+Arguments commutative_hash_pair_h {B D} bapp hashfn bytes_of gtb a b.
+Arguments leaf_hash_h {B D} bapp hashfn encoded.
+Arguments climb_h {B D} bapp hashfn bytes_of gtb leaf proof.
+Arguments verify_h {B D} bapp hashfn bytes_of deqb gtb proof root leaf.
+Arguments iclimb_h {B D} bapp hashfn bytes_of leaf index proof.
+Arguments verify_with_index_h {B D} bapp hashfn bytes_of deqb proof root leaf index.
+Arguments H_of {B D} bapp hashfn bytes_of a b.
+
 (* ======================= Part 2: executable digests ======================= *)
 
 Inductive dg := At (n : N) | Pr (a b : dg).
@@ -272,3 +343,12 @@ Definition LHtab (t : ltab) (i : N) (a : addr) (m : Z) : dg :=
   end.
 
 Definition is_at (d : dg) : bool := match d with At _ => true | Pr _ _ => false end.
+
+(* byte strings of the executable instance: sequences of 32-byte blocks; the table-driven hash of a
+   two-block string is [Htab] *)
+Definition hashfn_tab (t : htab) (l : list dg) : dg :=
+  match l with
+  | [x; y] => Htab t x y
+  | [x] => Pr x x
+  | _ => Pr (At 0%N) (At 0%N)
+  end.
